@@ -7,6 +7,7 @@ import OV.Model.C08Creation
 import OV.Model.C08Attr
 import OV.Model.C08Misc
 import OV.Model.C08Scalar
+import OV.Model.C08Linalg
 import OV.Gen.C08Trace
 import OV.Lemmas.C08
 /-!
@@ -708,18 +709,18 @@ theorem aten_mean_dim_agrees (s : Shape) (dims : List Int) (keep : Bool) (out : 
     (h : mean_dim.spec s dims keep = some out) : mean_dim.model s dims keep = some out :=
   OV.Lemmas.C08.mean_dim_agrees s dims keep out h
 
-/-- `aten_amax` / `aten_amin` (trace-only since d6091ac; `dim` omitted, empty or a list): PyTorch's shape wherever PyTorch accepts
-the call.  Hypothesis: rank ≥ 1 or no explicit dim — a 0-d input with `dim=[0]` is finding C08-rank0-explicit-dim (constant axes). -/
-theorem aten_amax_agrees_partial (s : Shape) (dims : Option (List Int)) (keep : Bool) (out : Shape)
-    (hr : s.length ≠ 0 ∨ dims.getD [] = [])
+/-- `aten_amax` / `aten_amin` (scripted: one call node around `ReduceMax(self, dim, keepdims)`): PyTorch's shape wherever PyTorch accepts
+the call.  Hypothesis: rank ≥ 1 or an empty dim list — a 0-d input with `dim=[0]` is finding C08-rank0-explicit-dim (constant axes). -/
+theorem aten_amax_agrees_partial (s : Shape) (dims : List Int) (keep : Bool) (out : Shape)
+    (hr : s.length ≠ 0 ∨ dims = [])
     (h : amax.spec s dims keep = some out) : amax.model s dims keep = some out :=
   OV.Lemmas.C08.amax_agrees s dims keep out hr h
 
 /-- the hypothesis is needed: FINDING C08-rank0-explicit-dim (what remains). -/
 theorem aten_amax_rank0_explicit_dim_refuted :
-    amax.model [] (some [0]) false = none ∧ amax.spec [] (some [0]) false = some [] := by decide
+    amax.model [] [0] false = none ∧ amax.spec [] [0] false = some [] := by decide
 
-example : amax.spec [] none true = some [] := by decide
+example : amax.spec [] [] true = some [] := by decide
 
 /-- after fix f89de7f: every rank (a 0-d input with `dim` 0 / -1 returns `Identity`). -/
 theorem aten_prod_dim_agrees (s : Shape) (dim : Int) (keep : Bool) (out : Shape)
@@ -777,7 +778,7 @@ example : index_select.spec [5, 3] 1 3 = some [5, 3] := by decide
 example : all_dim.spec [2, 3] (-1) true = some [2, 1] := by decide
 example : mean_dim.spec [2, 3, 4] [0, -1] true = some [1, 3, 1] := by decide
 example : cumsum.spec [2, 3] (-1) = some [2, 3] := by decide
-example : amax.spec [2, 3, 4] (some [0, -1]) true = some [1, 3, 1] := by decide
+example : amax.spec [2, 3, 4] [0, -1] true = some [1, 3, 1] := by decide
 example : prod_dim.spec [2, 3] (-1) true = some [2, 1] := by decide
 example : col2im.spec [1, 12, 12] [5, 6] [2, 3] [1, 1] [1, 0] [1, 2] = some [1, 2, 5, 6] := by decide
 example : max_pool.spec 2 [1, 2, 7, 9] (.list [4, 3]) (.list [2, 1]) (.list [2, 1]) (.list [1, 2]) true = some [1, 2, 5, 7] := by decide
@@ -791,5 +792,93 @@ example : cat.spec [[2, 3], [0], [2, 1]] (-1) = some [2, 4] := by decide
 example : torchReduce [2, 3, 4] [1] false = some [2, 4] := by decide
 example : normAxis 3 (-1) = some 2 ∧ (0 : Nat) < [2, 3, 4].getD 2 0 ∧ [2, 3, 4].getD 2 0 ≤ numel [2, 3, 4] := by decide
 example : torchDim 3 (-1) = some 2 ∧ [2, 3, 1].getD 2 0 = 1 := by decide
+
+/-! ## MatMul family, max.dim / min.dim, logsumexp, logcumsumexp, embedding, scatter, pixel (un)shuffle -/
+
+/-- `aten_matmul` = one `MatMul` (numpy semantics: 1-D operands promoted and the added dim removed, batch dims broadcast): the
+result shape is `torch.matmul`'s in each case of its documentation (dot, matrix·matrix, vector·matrix, matrix·vector, batched) —
+all ranks, all sizes, wherever PyTorch accepts the operands. -/
+theorem aten_matmul_agrees (a b out : Shape) (h : matmul.spec a b = some out) : matmul.model a b = some out :=
+  OV.Lemmas.C08.matmul_agrees a b out h
+
+/-- `aten_mm` / `aten_bmm` / `aten_mv` / `aten_dot` (the same single `MatMul`) against `torch.mm` (2-D·2-D), `torch.bmm` (3-D·3-D, equal
+batch), `torch.mv` (2-D·1-D), `torch.dot` (1-D·1-D → 0-d). -/
+theorem aten_mm_bmm_mv_dot_agree (a b out : Shape) :
+    (matmul.specMm a b = some out → matmul.model a b = some out)
+    ∧ (matmul.specBmm a b = some out → matmul.model a b = some out)
+    ∧ (matmul.specMv a b = some out → matmul.model a b = some out)
+    ∧ (matmul.specDot a b = some out → matmul.model a b = some out) :=
+  ⟨OV.Lemmas.C08.mm_agrees a b out, OV.Lemmas.C08.bmm_agrees a b out, OV.Lemmas.C08.mv_agrees a b out, OV.Lemmas.C08.dot_agrees a b out⟩
+
+example : matmul.spec [2, 1, 3, 4] [5, 4, 2] = some [2, 5, 3, 2] := by decide
+example : matmul.spec [4] [5, 4, 2] = some [5, 2] := by decide
+example : matmul.specBmm [5, 3, 4] [5, 4, 2] = some [5, 3, 2] ∧ matmul.specMv [3, 4] [4] = some [3] ∧ matmul.specDot [4] [4] = some []
+    ∧ matmul.specMm [3, 4] [4, 2] = some [3, 2] := by decide
+
+/-- `aten_max_dim` / `aten_min_dim`: both outputs (values: `ReduceMax` with a computed axis; indices: `ArgMax`) have PyTorch's shape
+wherever `torch.max(x, dim, keepdim)` is defined — every rank (0 included), negative `dim`, both `keepdim`. -/
+theorem aten_max_dim_agrees (s : Shape) (dim : Int) (keep : Bool) (out : List Shape)
+    (h : max_dim.spec s dim keep = some out) : max_dim.model s dim keep = some out :=
+  OV.Lemmas.C08.max_dim_agrees s dim keep out h
+
+example : max_dim.spec [2, 3, 4] (-2) true = some [[2, 1, 4], [2, 1, 4]] := by decide
+example : max_dim.spec [] (-1) false = some [[], []] := by decide
+
+/-- `aten_logsumexp` (rank 0 → `self`, else `ReduceLogSumExp` with constant axes): PyTorch's shape wherever defined. -/
+theorem aten_logsumexp_agrees (s : Shape) (dims : List Int) (keep : Bool) (out : Shape)
+    (h : logsumexp.spec s dims keep = some out) : logsumexp.model s dims keep = some out :=
+  OV.Lemmas.C08.logsumexp_agrees s dims keep out h
+
+example : logsumexp.spec [2, 3, 4] [0, -1] false = some [3] ∧ logsumexp.spec [] [-1] true = some [] := by decide
+
+/-- `aten_logcumsumexp` (`Log(CumSum(Exp(x - M))) + M` with `M = ReduceMax(keepdims=1)`): the two broadcasts against `M` give back
+the input shape, for every rank and every valid `dim`. -/
+theorem aten_logcumsumexp_agrees (s : Shape) (dim : Int) (out : Shape)
+    (h : logcumsumexp.spec s dim = some out) : logcumsumexp.model s dim = some out :=
+  OV.Lemmas.C08.logcumsumexp_agrees s dim out h
+
+example : logcumsumexp.spec [2, 3] (-2) = some [2, 3] := by decide
+
+/-- `aten_embedding` = `Gather(weight, indices)` on axis 0: `indices.shape ++ [D]` for a 2-D weight, any index rank. -/
+theorem aten_embedding_agrees (w idx out : Shape) (h : embedding.spec w idx = some out) : embedding.model w idx = some out :=
+  OV.Lemmas.C08.embedding_agrees w idx out h
+
+example : embedding.spec [5, 4] [2, 0, 3] = some [2, 0, 3, 4] := by decide
+
+/-- `aten_scatter_src` / `aten_scatter_add` (`ScatterElements`): with `src` of the index's shape (hypothesis — the general case is the finding
+below), rank ≥ 1, wherever `torch.scatter` accepts the arguments the graph is valid and returns self's shape. -/
+theorem aten_scatter_agrees_partial (isAdd : Bool) (s idx : Shape) (dim : Int) (out : Shape)
+    (hr : s.length ≠ 0) (hi : idx.length ≠ 0)
+    (h : scatter.spec s idx idx dim = some out) : scatter.model isAdd s idx idx dim = some out :=
+  OV.Lemmas.C08.scatter_agrees isAdd s idx dim out hr hi h
+
+example : scatter.spec [3, 5] [2, 7] [2, 7] (-1) = some [3, 5] := by decide
+
+/-- FINDING C08-scatter-src-larger: `torch.scatter(x[2], 0, idx[2], src[3])` is defined (`index.size(d) ≤ src.size(d)`); ONNX
+`ScatterElements` needs `updates.shape = indices.shape` and the function passes `src` through. -/
+theorem aten_scatter_src_larger_refuted :
+    scatter.model false [2] [2] [3] 0 = none ∧ scatter.spec [2] [2] [3] 0 = some [2] := by decide
+
+/-- `aten_pixel_shuffle`: rank 4 → `DepthToSpace`; any other rank ≥ 3 through the collapse / restore `Reshape`s: PyTorch's shape
+`[*, C/r², H·r, W·r]`.  Hypothesis for the `Reshape` path: no zero-size dim (finding below). -/
+theorem aten_pixel_shuffle_agrees_partial (s : Shape) (r : Int) (out : Shape)
+    (hne : s.length = 4 ∨ ∀ x ∈ s, x ≠ 0)
+    (h : pixel_shuffle.spec s r = some out) : pixel_shuffle.model s r = some out :=
+  OV.Lemmas.C08.pixel_shuffle_agrees s r out hne h
+
+example : pixel_shuffle.spec [2, 3, 8, 2, 5] 2 = some [2, 3, 2, 4, 10] := by decide
+
+/-- FINDING C08-pixel-shuffle-empty: `pixel_shuffle(x[0,2,1], 1)` is `[0,2,1]` in PyTorch; `Reshape([-1,0,2,1], allowzero=0)` re-reads the 0. -/
+theorem aten_pixel_shuffle_empty_refuted :
+    pixel_shuffle.model [0, 2, 1] 1 = none ∧ pixel_shuffle.spec [0, 2, 1] 1 = some [0, 2, 1] := by decide
+
+/-- `aten_pixel_unshuffle` (`Reshape → Reshape[-1,C,H/r,r,W/r,r] → Transpose[0,1,3,5,2,4] → Reshape[-1,C·r²,H/r,W/r] → Reshape`):
+PyTorch's shape `[*, C·r², H/r, W/r]` for every rank ≥ 3 and every `r` dividing H and W, on non-empty tensors. -/
+theorem aten_pixel_unshuffle_agrees_partial (s : Shape) (r : Int) (out : Shape)
+    (hnz : ∀ x ∈ s, x ≠ 0)
+    (h : pixel_unshuffle.spec s r = some out) : pixel_unshuffle.model s r = some out :=
+  OV.Lemmas.C08.pixel_unshuffle_agrees s r out hnz h
+
+example : pixel_unshuffle.spec [2, 3, 4, 6] 2 = some [2, 12, 2, 3] := by decide
 
 end OV.Props.C08
